@@ -1295,6 +1295,45 @@ theorem sem_application {f : Val} (args : List Val) (hm : HeadNotMacro st env f)
       | (.oof, st1) => (.oof, st1) := by
   rw [sem_arm (macroHead_of_headNotMacro hm), parse_app hsf]; rfl
 
+theorem sem_call_closure {f : Val} {args : List Val} (hm : HeadNotMacro st env f) (hsf : a0sym f ∉ specialForms)
+    {params body : Val} {fenv : Nat} {m : Bool} {fp : Option Pos} {vs : List Val} {st1 : State}
+    {data : List (String × Val)}
+    (hargs : semList F st env (f :: args) = (.ok (.fn params body fenv m fp :: vs), st1))
+    (hbind : bindParams params vs = .ok data) :
+    sem (F+1) st env (.list (f :: args) pos) = sem F (st1.newScope fenv data).1 (st1.newScope fenv data).2 body := by
+  rw [sem_application args hm hsf, hargs]; dsimp only; rw [hbind]
+
+theorem sem_call_arity_error {f : Val} {args : List Val} (hm : HeadNotMacro st env f) (hsf : a0sym f ∉ specialForms)
+    {params body : Val} {fenv : Nat} {m : Bool} {fp : Option Pos} {vs : List Val} {st1 : State} {msg : String}
+    {ep : Option Pos}
+    (hargs : semList F st env (f :: args) = (.ok (.fn params body fenv m fp :: vs), st1))
+    (hbind : bindParams params vs = .error (.lisp (.goerr msg) ep)) :
+    sem (F+1) st env (.list (f :: args) pos) = (.err (.lisp (.goerr (msg ++ " (around do)")) none), st1) := by
+  rw [sem_application args hm hsf, hargs]; dsimp only; rw [hbind]; rfl
+
+theorem sem_call_builtin {f : Val} {args : List Val} (hm : HeadNotMacro st env f) (hsf : a0sym f ∉ specialForms)
+    {name : String} {vs : List Val} {st1 : State}
+    (hargs : semList F st env (f :: args) = (.ok (.builtin name :: vs), st1)) :
+    sem (F+1) st env (.list (f :: args) pos) =
+      match callBuiltin F st1 name vs 0 with
+      | (.ok v, st2) => (.ok v, st2)
+      | (.err e, st2) => (.err (newLispError e (.list (f :: args) pos)), st2)
+      | (.oof, st2) => (.oof, st2) := by
+  rw [sem_application args hm hsf, hargs]
+
+theorem sem_call_non_callable {f : Val} {args : List Val} (hm : HeadNotMacro st env f) (hsf : a0sym f ∉ specialForms)
+    {fv : Val} {vs : List Val} {st1 : State}
+    (hargs : semList F st env (f :: args) = (.ok (fv :: vs), st1))
+    (hnf : ∀ ps b e m p, fv ≠ .fn ps b e m p) (hnb : ∀ n, fv ≠ .builtin n) :
+    sem (F+1) st env (.list (f :: args) pos) = (.err (.lisp (.goerr "attempt to call non-function") none), st1) := by
+  rw [sem_application args hm hsf, hargs]
+  cases fv <;> first | exact absurd rfl (hnf _ _ _ _ _) | exact absurd rfl (hnb _) | rfl
+
+theorem sem_args_error {f : Val} {args : List Val} (hm : HeadNotMacro st env f) (hsf : a0sym f ∉ specialForms)
+    {e : Err} {st1 : State} (hargs : semList F st env (f :: args) = (.err e, st1)) :
+    sem (F+1) st env (.list (f :: args) pos) = (.err e, st1) := by
+  rw [sem_application args hm hsf, hargs]
+
 end rules
 
 end LispModel.Proofs.BigStepRefine
